@@ -17,9 +17,14 @@ printed branch (a tie), the rest of that history is not judged (another history 
 Genuine defect found by this check on the pinned tree: known_findings.d/C28.json
 (C28_prev_latency_last_iterated), proposed_fixes/C28.diff.
 
-Mutation self-test (recorded 2026-09-22): `if now.duration_since(*t) > MAX_AGE` replaced by `if false`
-(MAX_AGE filter removed, DESIGN §12) -> VIOLATION (a 301-second-old best latency still decides);
-reverted -> exit 0 with the known finding only.
+Fix check (2026-09-22): with proposed_fixes/C28.diff applied (lowest latency of the previous relay
+via RelayLatencies::get) all histories pass with no KNOWN-FINDING line.
+
+Mutation self-test (2026-09-22, pinned tree): `if now.duration_since(*t) > MAX_AGE` replaced by
+`if false && ...` (MAX_AGE filter removed, DESIGN §12) -> exit 1, `VIOLATION ... previous preferred
+r1, report [https r1 9, https r2 5], history [https r1 5 finished 301 s earlier]: preferred relay
+r1, the property allows [r2]` (sig wrong=stuck_with_previous; a 301-second-old best latency still
+decides), next to the KNOWN-FINDING of the pinned defect; undone -> exit 0.
 """
 import json
 
@@ -45,7 +50,7 @@ META = {
 
 def gen_configs(ctx):
     quick = [dict(NRelays=2, Lats="{5, 6, 9}", MaxProbes=3, MaxProbesFirst=1, MaxRounds=2)]
-    thorough = [dict(NRelays=2, Lats="{4, 5, 6, 9}", MaxProbes=3, MaxProbesFirst=2, MaxRounds=2),
+    thorough = [dict(NRelays=2, Lats="{4, 5, 6, 9}", MaxProbes=3, MaxProbesFirst=1, MaxRounds=2),
                 dict(NRelays=3, Lats="{5, 6, 9}", MaxProbes=3, MaxProbesFirst=1, MaxRounds=2)]
     return ctx.pick(quick, thorough)
 
@@ -129,8 +134,9 @@ def judge(ctx, cases, obs):
             got = o["got"][i]
             if got not in r["allowed"]:
                 sig = classify(r, got)
-                ctx.report(sig, "round %d: previous preferred %s, report %s, history %s: preferred relay %s, the property allows %s"
-                           % (i + 1, r["prevpref"], [[e["kind"], e["relay"], e["lat"]] for e in r["lat"]],
+                ctx.report(sig, "round %d (%d s after the previous one): previous preferred %s, report %s, history [dt, report] %s: "
+                                "preferred relay %s, the property allows %s"
+                           % (i + 1, r["dt"], r["prevpref"], [[e["kind"], e["relay"], e["lat"]] for e in r["lat"]],
                               [[q["dt"], [[e["kind"], e["relay"], e["lat"]] for e in q["lat"]]] for q in rounds[:i]],
                               got, r["allowed"]), c)
                 break
